@@ -195,9 +195,32 @@ def _lattice_cfg(draw, tier, group, pick):
       k = draw(st.integers(1, min(2, len(cand))))
       lcfg["junimod"] = [[cand[:k], draw(st.sampled_from(["valley",
                                                           "peak"]))]]
+  strict = draw(st.sampled_from([True, True, False]))
+  if group == "W" and n >= 2 and draw(st.integers(0, 4)) == 0:
+    # trust-squeeze focus (one weight case in five): trusts + two-sided bounds +
+    # strict finalisation is the only route through the trust-aware bound
+    # squeeze of the finaliser, which reduces over the lattice axes per unit
+    # (audit mutant M-C09-3 survived a run with too few of these).
+    if not lcfg["ew"] and not lcfg["tz"]:
+      mains = [d for d in range(n) if lcfg["mono"][d] == 1] or [
+          d for d in range(n) if lcfg["unimod"][d] == 0 and
+          d not in in_junimod][:1]
+      if mains:
+        m = mains[0]
+        lcfg["mono"][m] = 1
+        c = (m + 1) % n
+        lcfg["ew"] = [[m, c, draw(st.sampled_from([-1, 1]))]]
+    if lcfg["ew"] or lcfg["tz"]:
+      strict = True
+      if lcfg["omin"] is None and lcfg["omax"] is None:
+        lcfg["omin"], lcfg["omax"] = -1.0, 1.0
+      elif lcfg["omin"] is None:
+        lcfg["omin"] = float(lcfg["omax"]) - 2.0
+      elif lcfg["omax"] is None:
+        lcfg["omax"] = float(lcfg["omin"]) + 2.0
   return {"lcfg": lcfg,
           "iters": draw(st.sampled_from([0, 1, 2, 4] + ([10] if big else []))),
-          "strict": draw(st.sampled_from([True, True, False])),
+          "strict": strict,
           "entry": draw(st.sampled_from(["constraint", "constraint", "layer"])),
           "interp": draw(st.sampled_from(["hypercube", "hypercube", "simplex"])),
           "clip": pick("lattice-clip", [True, True, False] if group == "U"
@@ -1317,6 +1340,9 @@ def _weights_problem(case, out):
     for fam in ("ew", "tz", "mdom", "rdom", "jmono", "junimod"):
       if lcfg[fam]:
         out.label("lattice:family=" + fam)
+    if (cfg["strict"] and (lcfg["ew"] or lcfg["tz"]) and
+        lcfg["omin"] is not None and lcfg["omax"] is not None):
+      out.label("lattice:strict+trust+two-sided-bounds")
     if any(lcfg["unimod"]):
       out.label("lattice:family=unimod")
     if any(lcfg["mono"]):
